@@ -2,7 +2,14 @@
 """Regenerates /verif/MANIFEST.json from the table below (claimed checks = modules present in props/)."""
 import json, os, glob
 HERE = os.path.dirname(os.path.dirname(os.path.abspath(__file__)))
+DBE = "deviation-bounded exhaustive enumeration of generated inputs (all choice vectors with <= k non-default choices, complete enumeration of small shapes) executed on the implementation and compared with a Python reference model"
 CHECKS = {
+ "C01": dict(technique=DBE + "; complete products for block structure (<=4 blocks x 0..2 lines), label alphabet (73 chars x 3 positions + all punctuation pairs) and 108 numeric literal forms",
+             text="Every generated .dec text inside the stated bounds is parsed by the real DecFileParser and every table field (mother order, line order, bf, daughters, PHOTOS, model, typed parameters) is compared with the AST it was rendered from; packed and unpacked; bounded exhaustive.",
+             note="Bounds: block sequences up to length 3 (quick) / 4 (thorough), line content up to 2 / 3 deviations; labels starting with a digit are not used directly after a number.", ref="3/C01"),
+ "C05": dict(technique=DBE + " plus a metamorphic oracle (text vs. its AST-level expansion)",
+             text="All files with <=k deviations from the default Define/ModelAlias scenario (placement, redefinition, 0..3 uses in 1..3 blocks, negated uses, alias parameter lists with Define'd names, copied and conjugated tables) are parsed and compared with the reference semantics, with the expanded text, and with dict_definitions/dict_model_aliases.",
+             note="Bound 2 (quick) / 3 (thorough) deviations; +name, alias-of-alias and alias names equal to model names are outside the space.", ref="3/C05"),
  "C14": dict(technique="explicit-state BFS over call histories of the real DescriptorFormat (state hashing on config + hidden per-object state) against a stack reference model; second driver through real with-blocks",
              text="Every history of create/enter/leave/leave-by-exception/set/invalid-set operations up to the stated length (all histories up to the forced depth, state-hashed beyond) is executed on the real class and compared after every step with a stack model of the format in force; bounded exhaustive, no sampling.",
              note="Bounded by history length and at most 3 context objects; two valid and eight invalid pattern pairs.", ref="3/C14"),
